@@ -576,6 +576,13 @@ func c03Batch(tag string, gs []*gen.Grammar, L int, st *mc.Stats, mu *sync.Mutex
 	}
 	mb.WriteString("}\n")
 	r := st3.Run("c03"+tag, pkgs, mb.String(), false, nil)
+	if r.Stopped != "" {
+		mu.Lock()
+		st.Inconcl++
+		st.Cap("a compiled program of a batch was stopped by the safety net (" + r.Stopped + "); the batch is not evaluated")
+		mu.Unlock()
+		return out
+	}
 	if r.BuildErr != "" {
 		// find the package named in the first error line
 		bad := firstLine(r.BuildErr)
